@@ -253,6 +253,50 @@ def symbol_write_rule(F, R):
         org = c07._origins(fn, loc.group(0), maps)
         if any(o.split(".")[0] in maps[2] and maps[2][o.split(".")[0]]["callee"].startswith("steel::") for o in org):
             pred = True
+    # by-construction agreement with the reader: the predicate asks the lexer (or, if hand-written, knows every alias
+    # spelling that the lexer's read_word maps to a special token)
+    preds = set()
+    for b in region:
+        blk = fn.blocks[b]
+        if blk["k"] == "call" and blk["callee"].startswith("steel::") and blk["callee"] in F.fns:
+            preds.add(blk["callee"])
+    lexnext = [n for n in F.fns if re.search(r"^steel_parser::lexer::\{impl Iterator for Lexer<'a>\}::next$|^steel_parser::lexer::\{impl Iterator for Lexer\}::next$", n)]
+    if not lexnext:
+        raise CheckError("anchor lost: steel_parser Lexer::next")
+    asks = any(F.reaches(p_, re.escape(lexnext[0]) + "$") for p_ in preds)
+    rw = F.one(r"^steel_parser::lexer::\{impl Lexer<'a>\}::read_word$|^steel_parser::lexer::\{impl Lexer\}::read_word$")
+    aliases = set()
+    for _, cb in rw.calls():
+        for a in cb["args"]:
+            if a.startswith("str:"):
+                aliases.add(a[4:])
+    aliases = {a for a in aliases if a and not re.search(r"\s", a)}
+    if len(aliases) < 10:
+        raise CheckError("C12.w: only %d special spellings found in Lexer::read_word (expected the special-form table)" % len(aliases))
+    known = set()
+    stack, seen = list(preds), set()
+    while stack:
+        x = stack.pop()
+        if x in seen or x not in F.fns or not x.startswith("steel::"):
+            continue
+        seen.add(x)
+        for _, cb in F.fns[x].calls():
+            for a in cb["args"]:
+                if a.startswith("str:"):
+                    known.add(a[4:])
+            stack.append(cb["callee"])
+        for _, _, e in F.fns[x].events("kv"):
+            if str(e[2]).startswith("str:"):
+                known.add(str(e[2])[4:])
+    # spellings that read back as a different symbol than written: aliases (fn, defn, …) — the canonical ones are fine
+    canon = {"if", "let", "define", "%plain-let", "return!", "begin", "lambda", "quote", "syntax-rules", "define-syntax",
+             "...", "set!", "require"}
+    need = aliases - canon
+    R.inst("C12.w", "the quoting predicate agrees with the lexer by construction", asks or need <= known,
+           "the predicate that decides whether `write` puts a symbol between bars neither runs the lexer over the name nor "
+           "mentions the spellings %s that Lexer::read_word turns into other tokens: such symbols (and `+x`, which the lexer "
+           "splits into `+` and `x`, or `1@2`) are written bare and read back as something else"
+           % sorted(need - known), fn.loc(), sample={"asks_lexer": asks, "aliases": sorted(need)})
     R.inst("C12.w", "format_with_cycles / SymbolV arm consults a quoting predicate", pred,
            "the SymbolV arm of CycleDetector::format_with_cycles writes the symbol's name as it is: "
            "(write (string->symbol \"hello world\")) prints hello world, which reads back as two symbols; '|| prints "
